@@ -89,8 +89,12 @@ Fixpoint expand_roots (fuel : nat) (roots : list text) (once : list text) : res 
 Definition expand_root (fuel : nat) (root : text) : res st := expand fuel root [] [].
 End Expand.
 
-(* FileServerReal::get_handle + get_bytes: the embedded table first, then the disk *)
+(* FileServerReal::get_handle + get_bytes: the handle table of embedded files first; a name under `<std>/`
+   that is not embedded is "file not found" without looking at the disk; any other name is read from disk *)
 Fixpoint assoc {A : Type} (k : text) (l : list (text * A)) : option A :=
   match l with [] => None | (k', v) :: r => if text_eqb k k' then Some v else assoc k r end.
 Definition real_lookup {A : Type} (std : list (text * A)) (disk : text -> option A) (name : text) : option A :=
-  match assoc name std with Some c => Some c | None => disk name end.
+  match assoc name std with
+  | Some c => Some c
+  | None => if is_std_path name then None else disk name
+  end.
